@@ -42,7 +42,7 @@ def run(ctx, mod):
     broken = []          # obligations / correspondences that no longer check
     failures = []        # concrete failing inputs (Failure)
     # 0. gate
-    bad = C.grep_gate()
+    bad = C.grep_gate(prop)
     if bad:
         broken.append({"what": "grep gate", "detail": bad[:10]})
     # 1. regenerate the generated part of the model from /repo
